@@ -70,6 +70,29 @@ def floatFmod (a b : Float) : Float :=
   | some _, none => if b.isNaN then b else a
   | _, _ => (0.0 / 0.0)
 
+/-- correctly rounded square root of a non-negative rational (integer square root with 64+ significant bits and a sticky half) -/
+def sqrtRatToFloat (r : Rat) : Float :=
+  if r ≤ 0 then 0.0 else
+  let n := r.num.natAbs
+  let d := r.den
+  -- k such that floor(r * 4^k) ≥ 2^130
+  let ln := n.log2
+  let ld := d.log2
+  let need : Int := 132 + (ld : Int) - (ln : Int)
+  let k : Nat := if need ≤ 0 then 0 else ((need + 1) / 2).toNat
+  let num := n * 4 ^ k
+  let q := num / d
+  let s := q.sqrt
+  let inexact := (s * s != q) || (num % d != 0)
+  let v : Rat := ((2 * s + (if inexact then 1 else 0) : Nat) : Rat) / ((2 ^ (k + 1) : Nat) : Rat)
+  ratToFloat v
+
+/-- `f64::hypot` (libm): correctly rounded √(x²+y²) -/
+def floatHypot (x y : Float) : Float :=
+  match floatToRat? x, floatToRat? y with
+  | some rx, some ry => sqrtRatToFloat (rx * rx + ry * ry)
+  | _, _ => if x.isInf || y.isInf then (1.0 / 0.0) else (0.0 / 0.0)
+
 instance : Scalar Float where
   add := (· + ·); sub := (· - ·); mul := (· * ·); div := (· / ·); neg := (- ·)
   abs := Float.abs
@@ -92,7 +115,7 @@ instance : Scalar Float where
       let r := ra * rb + rc
       if r == 0 then a * b + c else ratToFloat r
     | _, _, _ => a * b + c
-  hypot x y := Float.sqrt (x * x + y * y)
+  hypot := floatHypot
   copysign a b := if floatSignBit b then -a.abs else a.abs
   fin x := x.isFinite
   finQuot _ r := r.isFinite
